@@ -447,6 +447,52 @@ example : sparkSequence 3 1 = [3, 2, 1] ∧ sparkSequence 1 4 = [1, 2, 3, 4] ∧
 example : sqlframeSequence .direction 3 1 = [3, 2, 1] ∧ sqlframeSequence (.const 1) 3 1 = [] := by decide
 example : H_sequenceDescendingNoStep (.const 1) 1 4 := Or.inr (Or.inr (by decide))
 
+/-! #### rint -/
+
+/-- scope hypothesis of the open finding H_rintHalfAwayEmulation: the engine's rendering is not `round(col, 0)`, or the value is
+    not a tie (h/2 with h odd) -/
+def H_rintHalfAwayEmulation (rule : RintRule) (h : Int) : Prop := rule ≠ .fromRound ∨ h % 2 = 0
+
+instance (rule : RintRule) (h : Int) : Decidable (H_rintHalfAwayEmulation rule h) := by
+  unfold H_rintHalfAwayEmulation; infer_instance
+
+/-- the generated dispatch: DuckDB renders rint() as ROUND_EVEN(col, 0), Spark / Databricks / Redshift run RINT, and exactly
+    BigQuery, Postgres and Snowflake go through round(col, 0) -/
+theorem C12_rint_rules :
+    rintRuleOf "duckdb" = some .roundEven ∧ rintRuleOf "spark" = some .native ∧ rintRuleOf "databricks" = some .native ∧
+    rintRuleOf "redshift" = some .native ∧
+    supportedEngines.filter (fun e => rintRuleOf e = some .fromRound) = ["bigquery", "snowflake", "postgres"] := by decide
+
+/-- on the DuckDB session rint() is PySpark's rint (ties to even) on EVERY multiple of 1/2 — no hypothesis -/
+theorem C12_rint_duckdb (h : Int) : ∃ rule, rintRuleOf "duckdb" = some rule ∧ sqlframeRint rule h = sparkRint h :=
+  ⟨.roundEven, C12_rint_rules.1, rfl⟩
+
+/-- on every supported engine, under H_rintHalfAwayEmulation -/
+theorem C12_rint : ∀ e ∈ supportedEngines, ∃ rule, rintRuleOf e = some rule ∧
+    ∀ h : Int, H_rintHalfAwayEmulation rule h → sqlframeRint rule h = sparkRint h := by
+  have key : ∀ e ∈ supportedEngines, ∃ rule, rintRuleOf e = some rule := by
+    have k2 : ∀ e ∈ supportedEngines, (rintRuleOf e).isSome = true := by decide
+    intro e he
+    exact Option.isSome_iff_exists.1 (k2 e he)
+  intro e he
+  obtain ⟨rule, hr⟩ := key e he
+  refine ⟨rule, hr, ?_⟩
+  intro h hH
+  cases rule with
+  | roundEven => rfl
+  | native => rfl
+  | fromRound =>
+    rcases hH with hH | hH
+    · exact absurd rfl hH
+    · simp [sqlframeRint, sparkRint, halfAway, halfEven, hH]
+
+/-- the hypothesis is needed: through round(col, 0), 0.5 and 2.5 come out as 1 and 3; rint gives 0 and 2 -/
+theorem C12_cex_rintHalfAway :
+    sqlframeRint .fromRound 1 = 1 ∧ sparkRint 1 = 0 ∧ sqlframeRint .fromRound 5 = 3 ∧ sparkRint 5 = 2 ∧
+    ¬ H_rintHalfAwayEmulation .fromRound 1 := by decide
+
+example : H_rintHalfAwayEmulation .fromRound 4 ∧ sqlframeRint .fromRound 4 = 2 := by decide
+
 /-! #### regexp_replace -/
 
 /-- the generated renderings carry the 'g' option wherever the engine would otherwise replace only the first match — with and
